@@ -15,7 +15,7 @@
    information 25..27) never occurs in them and is refused with the reason EFloat (class
    "unsupported", for which the correspondence check claims nothing).  No proofs here. *)
 From Coq Require Import List NArith Bool.
-Require Import V.base.Bytes.
+Require Import V.base.Bytes V.gen.SerdeConsts.
 Import ListNotations.
 Local Open Scope N_scope.
 
@@ -31,8 +31,10 @@ Inductive item : Type :=
 
 Record limits := { max_depth : nat; max_arr : N; max_map : N }.
 
-(* serde.DefaultMaxNestedLevels / DefaultMaxArrayElements / DefaultMaxMapPairs *)
-Definition serde_limits : limits := {| max_depth := 32; max_arr := 131072; max_map := 131072 |}.
+(* serde.DefaultMaxNestedLevels / DefaultMaxArrayElements / DefaultMaxMapPairs as the DecOptions
+   literal of serde.updateModes uses them — regenerated from serde.go (gen/SerdeConsts.v) *)
+Definition serde_limits : limits :=
+  {| max_depth := max_nested_levels; max_arr := max_array_elements; max_map := max_map_pairs |}.
 
 (* ---------------------------------------------------------------- encoder *)
 
